@@ -640,7 +640,7 @@ func (w *World) selectorTokens(a *Actor) []Rec {
 				continue
 			}
 			out = append(out, Rec{"sel": w.Name(sdk.AccAddress(k).String()), "val": w.Name(d.ValidatorAddress), "tok": NumInt(v.TokensFromShares(d.Shares).TruncateInt()),
-				"bonded": v.IsBonded(), "locked": ms(sel.LockedUntilTime), "cnt": int(sel.DelegationsCount), "intop": intop[d.ValidatorAddress], "maxvals": int(maxvals)})
+				"bonded": v.IsBonded(), "locked": ms(sel.LockedUntilTime), "lockedn": nsNum(sel.LockedUntilTime), "cnt": int(sel.DelegationsCount), "intop": intop[d.ValidatorAddress], "maxvals": int(maxvals)})
 		}
 		return false, nil
 	})
